@@ -202,6 +202,6 @@ def run(facts, tier):
     c03.r03_3(facts, res, "R02-2r", reach, {})
     c01.r01_13(facts, res, "R02-3")
     import guards
-    guards.rule(facts, res, "R02-2g", [facts.fns[x] for x in reach if x in facts.fns], want=("G1", "G2", "G3", "G4"), floor=1)
+    guards.rule(facts, res, "R02-2g", [facts.fns[x] for x in reach if x in facts.fns], want=("G1", "G2", "G3", "G4", "G5"), floor=1)
     res.functions_analysed = res.extra["grammar"]["productions"]
     return res
